@@ -139,7 +139,10 @@ def run(module, cfg, workers=16, dump=False, env=None, timeout=3600, extra=(),
         res.violated.append("POSTCONDITION")
     res.ok = res.exit == 0
     if res.exit != 0 and not res.violated:
-        tail = "\n".join(res.out.strip().splitlines()[-40:])
+        lines = res.out.strip().splitlines()
+        errs = [k for k, ln in enumerate(lines) if ln.startswith("Error:")]
+        head = "\n".join(lines[errs[0]:errs[0] + 25]) + "\n...\n" if errs else ""
+        tail = head + "\n".join(lines[-8:])
         if own and not keep:
             shutil.rmtree(workdir, ignore_errors=True)
         raise MachineryError(f"TLC failed on {module} (exit {res.exit}):\n{tail}")
